@@ -36,6 +36,7 @@ class RefWorld:
         self.immediate = immediate
         self.keys = {}
         self.stacks = {}
+        self.atoms = set()
 
     def interp(self, e):
         return self.eng[e]
@@ -85,7 +86,14 @@ class RefWorld:
 
     def op_clear(self, e):
         self.op_engine(e)
+        self.atoms = {x for x in self.atoms if x[0] != e}      # "clears all defined atoms"
         return 'ok'
+
+    def op_atom(self, e, name):
+        # same object as this engine's earlier atom of that name; never an object of another engine
+        known = (e, name) in self.atoms
+        self.atoms.add((e, name))
+        return ['atom', known, False]
 
     # --- API-level bindings shared between operations (C13/C15): a stack of active unifications
     def _subst(self, e):
@@ -175,6 +183,7 @@ class ImplWorld:
         self.budget = budget
         self.shared = {}
         self.unis = {}
+        self.atoms = {}
 
     def do(self, op, keys=()):
         k = op[0]
@@ -230,7 +239,16 @@ class ImplWorld:
 
     def op_clear(self, e):
         self.eng[e].clear()
+        self.atoms = {k: v for k, v in self.atoms.items() if k[0] != e}
         return 'ok'
+
+    def op_atom(self, e, name):
+        a = self.eng[e].atom(name)
+        prev = self.atoms.get((e, name))
+        same = prev is a if prev is not None else False
+        foreign = any(o is a for (e2, n2), o in self.atoms.items() if e2 != e)
+        self.atoms[(e, name)] = a
+        return ['atom', same, foreign]
 
     def _shared(self, e, t):
         return impl.to_engine(self.eng[e], tt(t), self.shared.setdefault(e, {}))
@@ -340,7 +358,7 @@ def jn(x):
 def run_history(ops, ref_steps=4000, immediate=False):
     """returns (n_ops_decided, reference observations, impl observations, failure or None, refworld)"""
     ref = RefWorld(ref_steps, immediate)
-    im = ImplWorld()
+    im = ImplWorld(10 * ref_steps + 500)
     robs, iobs = [], []
     for i, op in enumerate(ops):
         try:
